@@ -335,8 +335,10 @@ func verifH_C20_recursive() {
 		text = `{"openapi":"3.0.0","info":{"title":"t","version":"1"},"paths":{"/a":{"post":{"callbacks":{"cb":{"{$request.body#/u}":{"$ref":"#/paths/~1b"}}},"responses":{"200":{"description":"ok"}}}},"/b":{"post":{"callbacks":{"cb":{"{$request.body#/u}":{"$ref":"#/paths/~1a"}}},"responses":{"200":{"description":"ok"}}}}}}`
 	}
 	kv, ki := "", ""
-	if shape <= 5 {
+	if shape == 3 || shape == 4 {
+		// through composition keywords alone (the cycles through properties / items / additionalProperties are repaired)
 		kv = "C20-recursive-schema-unbounded-recursion" // during Validate only
+	} else if shape <= 5 {
 	} else {
 		ki = "C20-internalize-recursive-callback" // during InternalizeRefs only
 	}
